@@ -38,7 +38,7 @@ REQUIRED_LABELS = {"basis:custom": 0.1, "lazy:d>=7": 0.03}
 
 
 def budget(tier):
-    n = int(os.environ.get("KV_EXAMPLES", 0)) or (2000 if tier == "quick" else 20000)
+    n = int(os.environ.get("KV_EXAMPLES", 0)) or (3000 if tier == "quick" else 20000)
     return {"examples": n, "shards": 8 if tier == "quick" else 16, "wall": 90 if tier == "quick" else 900, "fuzz_runs": 6000 if tier == "thorough" else 0}
 
 
